@@ -33,6 +33,10 @@ def step (st : DSt) (op : List String) : DSt × List String :=
     else
       let s' := PRV.Model.Manager.step st.s ev
       ({ st with s := s' }, diffOuts st.s.watched s'.watched ++ [watchedLine s'])
+  let restartWith (s1 : St) : DSt × List String :=
+    let s' := PRV.Model.Manager.step s1 .restart
+    ({ st with s := s', started := true },
+     (st.s.watched.map (fun a => s!"ctl exit {a}") ++ s'.watched.map (fun a => s!"ctl start {a}")).mergeSort (· ≤ ·) ++ [watchedLine s'])
   match op with
   | "chain" :: a :: rest =>
     let c : Contract := { addr := a, seller := w (kvGet rest "seller"), buyer := w (kvGet rest "buyer"),
@@ -45,8 +49,15 @@ def step (st : DSt) (op : List String) : DSt × List String :=
     let s' := PRV.Model.Manager.step st.s .restart
     ({ s := s', started := true },
      (st.s.watched.map (fun a => s!"ctl exit {a}") ++ s'.watched.map (fun a => s!"ctl start {a}")).mergeSort (· ≤ ·) ++ [watchedLine s'])
-  | "created" :: a :: rest => apply (.created a (w (kvGet rest "seller")))
-  | "purchased" :: a :: rest => apply (.purchased a (w (kvGet rest "buyer")) (w (kvGet rest "validator")))
+  | "created" :: a :: rest =>
+    if kvGet rest "rpcfail" = "" ∨ !st.started then apply (.created a (w (kvGet rest "seller"))) else
+    -- the handler cannot read the contract: the manager ends, the supervisor starts the process again (a fresh scan)
+    restartWith (setChain st.s { addr := a, seller := w (kvGet rest "seller") })
+  | "purchased" :: a :: rest =>
+    if kvGet rest "rpcfail" = "" ∨ !st.started then apply (.purchased a (w (kvGet rest "buyer")) (w (kvGet rest "validator"))) else
+    match find st.s a with
+    | some c => restartWith (setChain st.s { c with buyer := w (kvGet rest "buyer"), validator := w (kvGet rest "validator"), running := true })
+    | none => restartWith st.s
   | "purchasedslow" :: a :: rest =>
     -- the chain changes now, the event is handled when the node's answer arrives
     match find st.s a with
